@@ -56,6 +56,48 @@ def single_element_vectors(ctx, toks):
             i = e + 1; fire(ctx, 'single-element-vector-call'); continue
         out.append(toks[i]); i += 1
     return out
+def default_args(table):
+    """a call with fewer arguments than parameters takes the rest from the DEFAULT ARGUMENTS of the declaration in the header (read on every run):
+       table = {C++ callee name: (header file, regex locating the declaration up to its '(', number of parameters)}"""
+    import re as _re, unit as _U
+    def rule(ctx, toks):
+        out = []; i = 0
+        while i < len(toks):
+            t = toks[i]
+            if t.k == 'id' and t.t in table and i + 1 < len(toks) and toks[i + 1].t == '(' and (i == 0 or toks[i - 1].t not in ('.', '->')):
+                hdr, rx, npar = table[t.t]
+                e = match_close(toks, i + 1)
+                from cxx2c import split_args
+                args = split_args(toks[i + 2:e]) if e > i + 2 else []
+                if len(args) < npar:
+                    src = _U.repo_text(hdr)
+                    ms = list(_re.finditer(rx, src))
+                    if len(ms) != 1: raise ExtractError('default arguments of %s: declaration matched %d times in %s' % (t.t, len(ms), hdr))
+                    a = ms[0].end(); d = 1; b = a
+                    while d:
+                        if src[b] == '(': d += 1
+                        elif src[b] == ')': d -= 1
+                        b += 1
+                    params = []; cur = ''; d = 0
+                    for ch in src[a:b - 1]:
+                        if ch in '(<{': d += 1
+                        elif ch in ')>}': d -= 1
+                        if ch == ',' and d == 0: params.append(cur); cur = ''
+                        else: cur += ch
+                    params.append(cur)
+                    if len(params) != npar: raise ExtractError('default arguments of %s: %d parameters declared, %d expected' % (t.t, len(params), npar))
+                    out.extend(toks[i:e])
+                    for k in range(len(args), npar):
+                        if '=' not in params[k]: raise ExtractError('call of %s with %d arguments: parameter %d has no default' % (t.t, len(args), k + 1))
+                        out.append(P(',', '')); out.extend(tokenize(' ' + _re.sub(r'\b(\w+)::(\w+)\b', r'\1_\2', params[k].split('=', 1)[1].strip().replace('nix::', ''))))
+                        fire(ctx, 'default-argument')
+                    out.append(toks[e]); i = e + 1; continue
+            out.append(t); i += 1
+        return out
+    return rule
+DAH = 'include/nix/util/dataAccess.hpp'
+DEFAULTS = default_args({'featureData': (DAH, r'DataView\s+featureData\s*\((?=\s*const\s+Tag\s*&\s*tag\s*,\s*const\s+Feature\s*&)', 3),
+                         'taggedData': (DAH, r'DataView\s+taggedData\s*\((?=\s*const\s+Tag\s*&\s*tag\s*,\s*const\s+DataArray\s*&)', 3)})
 CL = ['NDSize', 'DataArray', 'DataView', 'Tag', 'Feature', 'nstring', 'Dimension']
 UNITS = {k: ND_UNITS[k] for k in ('NDSize_size', 'NDSize_at', 'NDSize_bool', 'NDSize_allocate', 'NDSize_fill', 'NDSize_ctor_fill')}
 UNITS.update({
@@ -64,8 +106,8 @@ UNITS.update({
     'taggedData_tag': dict(file=DA, locator=r'DataView\s+taggedData\s*\((?=\s*const\s+Tag\s*&\s*tag\s*,\s*const\s+DataArray\s*&\s*array)', classes=CL,
                            pre_rules=[drop_unused_vectors], calls={'getOffsetAndCount': 'getOffsetAndCount_tag'}),
     'featureData_tag': dict(file=DA, locator=r'DataView\s+featureData\s*\((?=\s*const\s+Tag\s*&\s*tag\s*,\s*const\s+Feature\s*&\s*feature)', classes=CL,
-                            post_rules=[none_cmp, tagged_counting], calls={'taggedData': 'taggedData_tag'}),
-    'featureData_tag_index': dict(file=DA, locator=r'DataView\s+featureData\s*\((?=\s*const\s+Tag\s*&\s*tag\s*,\s*ndsize_t\s+feature_index)', classes=CL,
+                            pre_rules=[DEFAULTS], post_rules=[none_cmp, tagged_counting], calls={'taggedData': 'taggedData_tag'}),
+    'featureData_tag_index': dict(file=DA, locator=r'DataView\s+featureData\s*\((?=\s*const\s+Tag\s*&\s*tag\s*,\s*ndsize_t\s+feature_index)', classes=CL, pre_rules=[DEFAULTS],
                                   calls={'featureData': 'featureData_tag'}),
 })
 UNITS['tag_assemble_dim'] = dict(file=DA, locator=r'void\s+getOffsetAndCount\s*\((?=\s*const\s+Tag\s*&\s*tag)', classes=CL,
@@ -85,7 +127,7 @@ def string_literal_local(ctx, toks):
         out.append(toks[i]); i += 1
     return out
 UNITS['getMaxExtent'] = dict(file=DA, pre_rules=[string_literal_local], locator=r'void\s+getMaxExtent\s*\(', classes=CL + ['SampledDimension', 'RangeDimension'])
-EXTRA = ('opt_ndsize gh_ge; opt_pair gh_pair; double gh_pair_start, gh_pair_end; RangeMatch gh_pair_match; int gh_pair_calls; int gh_unspecified;\n'
+EXTRA = ('opt_ndsize gh_ge; opt_pair gh_pair; double gh_pair_start, gh_pair_end; RangeMatch gh_pair_match; int gh_pair_calls; int gh_unspecified; RangeMatch gh_goc_match, gh_tagged_match, gh_fd_match;\n'
          'int gh_views; size_t gh_view_count_rank, gh_view_offset_rank; ndsize_t gh_view_count_k, gh_view_offset_k; const ndsize_t *gh_view_extent_dims;\n'
          'int gh_tagged_calls, gh_backend_feature_gets, gh_backend_reference_gets; ndsize_t gh_backend_get_index;\n'
          )
